@@ -150,6 +150,27 @@ pub fn worker_main() {
     );
 }
 
+/// In-process variant for the libFuzzer target: no worker, so only panics (caught) and compile
+/// errors can be judged; inputs are kept below the nesting that overflows the stack (F-STACK).
+pub fn judge_in_process(text: &str) -> Result<(), (Case, String)> {
+    let nest = nesting(text);
+    if nest >= 200 {
+        return Ok(());
+    }
+    let o = exercise(text, &[]);
+    let case = Case { text: text.to_string(), est: None, paths: vec![] };
+    match o.kind.as_str() {
+        "panic" => match classify_panic(&o.detail, max_number(text), nest) {
+            Some(_) => Ok(()),
+            None => Err((case, format!("expression {:?}: a public operation panicked: {}", text, o.detail))),
+        },
+        "compile" if !o.detail.contains("oversized program") => {
+            Err((case, format!("expression {:?}: compile error other than an oversized program: {}", text, o.detail)))
+        },
+        _ => Ok(()),
+    }
+}
+
 // ------------------------------------------------------------------------------------------------
 // parent side
 
